@@ -70,7 +70,9 @@ type BufV struct {
 
 // SymSliceV is an immutable symbolic slice of scalars.
 type SymSliceV struct {
-	Arr   *Term // (Array Int S)
+	Arr   *Term // (Array Int S); ignored when Cell != 0
+	Cell  int   // mutable backing array: the cell holds the current array term
+	Off   *Term // offset into the backing array (nil = 0), only with Cell
 	Len   *Term
 	Ref   *Term // identity if opaque, may be nil
 	ElemT types.Type
